@@ -55,7 +55,7 @@ def one(job):
     (d / f"verify{k}.json").write_text(json.dumps(res, indent=1))
     return pid, k, res
 
-jobs = [(pid, k) for pid in IDS for k in (1, 2, 3)]
+jobs = [(pid, k) for pid in IDS for k in range(1, 10) if (OUT / pid / f"patch{k}.diff").exists()]
 with ThreadPoolExecutor(8) as ex:
     for pid, k, res in ex.map(one, jobs):
         print(pid, k, "OK" if res.get("ok") else "FAIL", {x: res[x] for x in res if x in ("why", "apply_rc", "tests_tail", "demo_pristine_rc", "demo_patched_rc")}, flush=True)
